@@ -25,7 +25,8 @@ EXPLANATION = (
     'drops exactly cp_size leading columns of rows of length fft_size + cp_size. A refactor that inlines an '
     'equivalent but different provider on one side would be reported (accepted risk). Not decided: exact recovery '
     'through channels with memory <= CP, zero energy on guard/DC carriers.'
-    ' General rules also applied here (see DESIGN 10.5): validate-before-commit (no `raise` reachable after the object was already changed in a public mutator). C02.h: every value TdlChannel.corrupt_data returns is built from the tap delays as well as the tap values (read-set per return path).')
+    ' General rules also applied here (see DESIGN 10.5): validate-before-commit (no `raise` reachable after the object was already changed in a public mutator). C02.h: every value TdlChannel.corrupt_data returns is built from the tap delays as well as the tap values (read-set per return path).'
+    ' C02.j: with fewer used subcarriers than the FFT size the used FFT bins are exactly [N-h, N) and [1, h+1) (h = used // 2), decided as an identity of symbolic integer ranges; spellings outside that algebra are cannot-tell.')
 
 
 def neg_zero_slices(fn: FuncInfo):
@@ -456,6 +457,13 @@ def synthetic():
 
 
 MUTANTS = [
+    Mutant('positive-half-starts-at-dc', OF, 'OFDM._get_used_subcarrier_numbers',
+           [('replace', 'np.r_[1:half_used_sc + 1]', 'np.r_[0:half_used_sc]')], r'C02\.j:OFDM\.get_used_subcarrier_indexes:bin-set'),
+    Mutant('negative-half-one-bin-short', OF, 'OFDM.get_used_subcarrier_indexes',
+           [('replace', 'self.fft_size + numbers[half_used:]', 'self.fft_size - 1 + numbers[half_used:]')], r'C02\.j:OFDM\.get_used_subcarrier_indexes:bin-set'),
+    Mutant('benign-halves-built-with-arange', OF, 'OFDM._get_used_subcarrier_numbers',
+           [('replace', 'np.r_[1:half_used_sc + 1]', 'np.arange(1, half_used_sc + 1)'), ('replace', 'np.r_[-half_used_sc:0]', 'np.arange(-half_used_sc, 0)')],
+           None, benign=True),
     Mutant('store-cp-before-guards', OF, 'OFDM.set_parameters',
            [('regex', r'(    if cp_size < 0 or cp_size > fft_size:)', r'    self.cp_size = cp_size\n\1')], r'C02\.a:OFDM\.set_parameters'),
     Mutant('remove-cp-zero-guard', OF, 'OFDM._add_CP',
